@@ -1,8 +1,9 @@
-"""C09 — WhenAll / Join.  (rules are added incrementally; see DESIGN.md section 4/C09)"""
-from rules import lib_accessor
+"""C09 — WhenAll / Join complete once, at the right moment, with inputs in input order (structural clauses)."""
+from rules import lib_accessor, lib_order, lib_when
 
 WHEN_FILES = ['include/yaclib/async/when/all.hpp', 'include/yaclib/async/when/all_tuple.hpp',
               'include/yaclib/async/when/join.hpp', 'include/yaclib/async/when/when.hpp']
+STRATS = ('yaclib::when::All', 'yaclib::when::AllTuple', 'yaclib::when::Join')
 
 EXEMPT = {
     ('yaclib::when::All::~All', 'Value'):
@@ -15,9 +16,23 @@ def run(ctx):
     fbs = ctx.facts(['K17', 'K20'], kinds=('probe',), only=r'p_when\.cpp$')
     ra = ctx.rule('R-ACCESSOR', 'every Result accessor call sees exactly the matching state on every CFG path',
                   minimum=12)
+    rs = ctx.rule('R-SETONCE', 'the output promise is set at most once per path, only after winning an RMW election '
+                  '(or in the destructor under Valid())', minimum=12)
+    rcb = ctx.rule('R-CALLBACK', 'each per-input callback: one Consume then one combinator DecRef', minimum=20)
+    rsb = ctx.rule('R-SIBLING', 'the already-complete registration branch does what the callback does', minimum=10)
+    rcn = ctx.rule('R-COUNT', 'combinator reference count == number of inputs; empty range returns early', minimum=20)
+    rw = ctx.rule('R-WORD', 'election flags are only loaded or modified by an RMW', minimum=6)
+    ro = ctx.rule('R-ORDER', 'election flag orders', minimum=6)
+    rc = ctx.rule('R-CASKIND', 'election CAS kinds', minimum=0)
     ctx.assume('a Result delivered to a combinator is never Empty')
     for cfg, fb in sorted(fbs.items()):
         fns = lib_accessor.functions_with_accessors(fb, WHEN_FILES)
         if not fns:
             ctx.broken('no accessor call found in the combinator strategies (%s)' % cfg)
         lib_accessor.check(ctx, fb, ra, fns, EXEMPT)
+        lib_when.check_setonce(ctx, fb, rs, STRATS)
+        lib_when.check_callbacks(ctx, fb, rcb)
+        lib_when.check_sibling(ctx, fb, rsb)
+        lib_when.check_count(ctx, fb, rcn)
+        lib_order.check(ctx, fb, cfg, ['yaclib::when::All::_done', 'yaclib::when::AllTuple::_done',
+                                       'yaclib::when::Join::_done'], rw, ro, rc)
